@@ -209,7 +209,84 @@ def default_of(fn, get_node):
     return "?"
 
 
+def rule_sstr_index(c, prog, R="C01.sstr"):
+    """the SharedString index written into PROP chunks is the string's position in the SSTR chunk"""
+    c.rule(R, "binary writer: the ids stored for SharedStrings are the positions of the strings in the list the SSTR chunk is written from; that list is not reordered or edited once the ids have been taken (every mutation of it happens inside the id-assigning pass, before the ids are taken)")
+    from sa import flow
+    from .C13 import sp_key
+    VEC = re.compile(r"^alloc::vec::Vec<rbx_types::shared_string::SharedString>$")
+    IDS = re.compile(r"^std::collections::(hash::map::)?HashMap<rbx_types::shared_string::SharedString, u32")
+
+    def peel(ty):
+        ty = ty or ""
+        while ty.startswith("&"):
+            ty = ty[5:] if ty.startswith("&mut ") else ty[1:]
+        return ty
+
+    def is_field_of_self(n, rx):
+        n = core.strip(n)
+        while n.get("k") in ("AddrOf", "Unary"):
+            n = core.strip(n["e"])
+        return n.get("k") == "Field" and rx.match(peel(n.get("ty"))) is not None
+    fns = [f for f in prog.lib_fns() if f.body is not None and f.crate == "rbx_binary" and "::serializer::" in f.path]
+    READ_ONLY = {"iter", "len", "is_empty", "clone", "contains", "get", "first", "last", "as_slice", "to_vec", "into_iter", "binary_search", "binary_search_by_key", "starts_with", "ends_with", "deref"}
+    assigner = None
+    loop_node = None
+    for f in fns:
+        for n in core.walk_fn(f):
+            if n.get("k") == "DropTemps":
+                continue
+            fl = core.as_for(n)
+            if fl is None:
+                continue
+            src_is_list = any(is_field_of_self(y, VEC) for y in core.walk(fl[1]))
+            enumerates = any(y.get("k") == "MethodCall" and y["m"] == "enumerate" for y in core.walk(fl[1]))
+            stores = any(y.get("k") == "MethodCall" and y["m"] == "insert" and is_field_of_self(y["recv"], IDS) for y in core.walk(fl[2]))
+            if src_is_list and enumerates and stores:
+                assigner, loop_node = f, n
+    if assigner is None:
+        # ids may be taken in another form (position(), zip with a counter): nothing this clause can order against
+        c.not_decided.append("SharedString id assignment was not recognised as `for (id, s) in list.enumerate() { ids.insert(s, id) }`")
+        return
+    g = flow.CallGraph(prog)
+    inner = g.reach([assigner.path])
+    n_sites = 0
+    for f in fns:
+        for x in core.walk_fn(f):
+            mut = False
+            if x.get("k") == "MethodCall" and is_field_of_self(x["recv"], VEC) and x["m"] not in READ_ONLY:
+                mut = True
+            elif x.get("k") in ("MethodCall", "Call"):
+                for a in core.call_args(x):
+                    if a.get("k") == "AddrOf" and a.get("mut") and is_field_of_self(a, VEC):
+                        mut = True
+            elif x.get("k") in ("Assign", "AssignOp") and is_field_of_self(x["l"], VEC) and f.path.rsplit("::", 1)[-1] != "new":
+                mut = True
+            if not mut:
+                continue
+            n_sites += 1
+            what = x.get("m") or "write"
+            inst = f"sstr-list:{what} in {f.path.rsplit('::', 1)[-1]}"
+            if f.path == assigner.path:
+                if sp_key(x) < sp_key(loop_node):
+                    c.ok(R, inst)
+                else:
+                    c.violation(R, f"after-ids|{what}|{f.path.rsplit('::', 1)[-1]}", f"{f.path} applies `{what}` to the SharedString list after the ids were taken from it: the indices stored in PROP chunks then point at other entries of the SSTR chunk", core.loc(x), instance=inst)
+            elif f.path in inner:
+                # called from the id-assigning pass; must not be callable after its loop
+                late = [y for y in core.walk_fn(assigner) if y.get("k") in ("MethodCall", "Call") and sp_key(y) > sp_key(loop_node) and (core.callee_generic(y) == f.path or f.path in g.reach([core.callee_generic(y)] if core.callee_generic(y) in prog.fns else []))]
+                if late:
+                    c.violation(R, f"after-ids|{what}|{f.path.rsplit('::', 1)[-1]}", f"{f.path} applies `{what}` to the SharedString list and is called by {assigner.path} after the ids were taken", core.loc(x), instance=inst)
+                else:
+                    c.ok(R, inst)
+            else:
+                c.violation(R, f"outside-pass|{what}|{f.path.rsplit('::', 1)[-1]}", f"{f.path} applies `{what}` to the SharedString list but is not part of the pass that assigns the ids ({assigner.path}): when it runs afterwards the SSTR chunk is written in an order the ids already stored for PROP chunks do not describe, and instances come back holding another instance's string", core.loc(x), instance=inst)
+    if n_sites < 1:
+        raise core.AnchorMissing("no mutation of the SharedString list found in the binary serializer")
+
+
 def run(c, prog):
+    rule_sstr_index(c, prog)
     rule_tbl(c, prog)
     rule_ref(c, prog)
     from . import C01_rot, C01_alg, C01_arm
